@@ -164,5 +164,15 @@ PROPS["C08"] = {
     "note": "the ~100 node templates of _PatchingASTWalker, parenthesis handling and the regex-based string/number consumers are not under contract.",
     "undecided": ["losslessness for every valid module", "region exactness for every node class"],
 }
+PROPS["C19"] = {
+    "sidecars": ["c19_matcher.py", "c01_collector.py", "c08_source.py"],
+    "level": "exploration",
+    "claim": "Bounded: on a fixed catalogue (13 modules x 20 patterns) the finder's matches equal those of a reference structural matcher written from the statement "
+             "(instance of the pattern, equal wildcards bind equal code, all instances reported), matches respect the requested region, and goal == pattern "
+             "leaves the syntax tree unchanged.  Deductive support only through the kernels the rewrite rests on: ChangeCollector.get_changed (text edits) and "
+             "_Source.consume/_good_token (regions) are proved for all inputs.",
+    "note": "_ASTMatcher works on untyped generic trees (ast.iter_fields); pyvc's encoding has no universal tree datatype yet, so the matcher itself is not under contract.",
+    "undecided": ["matcher soundness and completeness for all patterns", "meaning preservation of arbitrary goals"],
+}
 _NB = "check not built yet (framework under construction; see DESIGN.md section 8)"
 NOT_APPLICABLE = {"C%02d" % i: _NB for i in range(1, 21)}
